@@ -16,6 +16,7 @@
 -/
 import DateutilVerif.Proofs.RDApply
 import DateutilVerif.Proofs.RDYearday
+import DateutilVerif.Proofs.RDGenEq
 import DateutilVerif.Proofs.TzStrBridge
 import DateutilVerif.Proofs.TzStr
 
@@ -293,6 +294,56 @@ theorem C08bridge_N (y n secs : Int) (hy1 : 2 ≤ y) (hy2 : y ≤ 9998) (hn1 : 0
   refine ⟨m, dd, he, ?_⟩
   rw [← C08bridge_applyDelta y _ ⟨by omega, by omega⟩ (by intro v hv; simp only [Option.some.injEq] at hv; omega)]
   exact ha
+
+/-! ## `_gen` twins: the same statements about the definitions RE-TRANSLATED from /repo on this run
+
+`Gen.addDt / Gen.raddDt / Gen.rsubDt / Gen.neg` (Generated/RDOps.lean) are produced by harness/translate_rd.py from
+the working tree's `__add__` (date/datetime branch), `__radd__`, `__rsub__`, `__neg__` on every run; the primitives
+they call are the named CPython operations of Model/RDPy.lean.  `RDG.addDt_eq` proves the translation EQUAL to the
+hand model, so every theorem above transfers; an edit of `__add__` that changes behaviour breaks `gen_addDt_eq_model`
+(or the translation). -/
+
+/-- **gen_addDt_eq_model.** The translated `__add__` (operand a date / datetime) is the model `applyTo`. -/
+theorem gen_addDt_eq_model (d : RD) (x : Temporal) : Gen.addDt d x = applyTo d x := RDG.addDt_eq d x
+
+/-- **applyTo_eq_spec_gen.** The translated `__add__` gives exactly the documented result. -/
+theorem applyTo_eq_spec_gen (d : RD) (x : Temporal) (hd : InDomain d) (hx : x.Valid) :
+    Gen.addDt d x = RDSpec.apply d x := by
+  rw [RDG.addDt_eq]; exact RDP.applyTo_eq_spec d x hd hx
+
+theorem month_shift_never_spills_gen (r : RD) (x : Temporal) (hr : MonthsOnly r) (hx : x.Valid)
+    (hy : 1 ≤ (12 * x.t.y + (x.t.m - 1) + (12 * r.years + r.months)) / 12 ∧
+          (12 * x.t.y + (x.t.m - 1) + (12 * r.years + r.months)) / 12 ≤ 9999) :
+    Gen.addDt r x = .ok { kind := x.kind, t := shiftDT x.t (12 * r.years + r.months) } := by
+  rw [RDG.addDt_eq]; exact applyTo_months_only r x hr hx hy
+
+/-- **sub_eq_add_neg_gen.** The translated `__rsub__` is the translated `__add__` of the translated `__neg__`
+    (read off the source, not assumed), and the translated `__neg__` negates exactly the relative fields. -/
+theorem sub_eq_add_neg_gen (d : RD) (x : Temporal) (hd : Normalised d) :
+    Gen.rsubDt d x = (Gen.neg d).bind (fun nd => Gen.addDt nd x) ∧
+    Gen.neg d = .ok { d with years := -d.years, months := -d.months, days := -d.days, hours := -d.hours,
+                             minutes := -d.minutes, seconds := -d.seconds, microseconds := -d.microseconds } := by
+  constructor
+  · rw [RDG.rsubDt_eq, RDG.neg_eq]
+    show rsub d x = Gen.addDt (neg d) x
+    rw [RDG.addDt_eq]; rfl
+  · rw [RDG.neg_eq, neg_of_normalised d hd]
+
+/-- **radd_eq_add_gen.** The translated `__radd__` is the translated `__add__`. -/
+theorem radd_eq_add_gen (d : RD) (x : Temporal) : Gen.raddDt d x = Gen.addDt d x := by
+  rw [RDG.raddDt_eq, RDG.addDt_eq]; rfl
+
+theorem promotion_iff_hasTime_gen (d : RD) (x r : Temporal) (hd : Normalised d) (h : Gen.addDt d x = .ok r) :
+    r.kind = (if x.kind = .date ∧ RDSpec.hasTimeInfo d = true then .naive else x.kind) := by
+  rw [RDG.addDt_eq] at h
+  exact (promotion_iff_hasTime d x r hd h).1
+
+theorem errors_only_out_of_range_gen (d : RD) (x : Temporal) (hd : InDomain d) (hx : x.Valid)
+    (e : Py.PyErr) (h : Gen.addDt d x = .error e) : e = .ValueError ∨ e = .OverflowError := by
+  rw [RDG.addDt_eq] at h
+  rcases errors_only_out_of_range d x hd hx e h with h' | h'
+  · exact Or.inl h'.1
+  · exact Or.inr h'.1
 
 -- non-vacuity / sanity
 example : applyTo { months := 1 } ⟨.date, { y := 2000, m := 1, d := 31 }⟩
